@@ -24,6 +24,13 @@ class Peer:
         self.sock = sock
         self.name = name
         sock.setblocking(False)
+        if sock.family in (socket.AF_INET, socket.AF_INET6):
+            # Nagle + the peer's delayed ACK can hold a small segment back for ~40 ms - an eternity for a rig that
+            # runs thousands of loop iterations per millisecond; harness endpoints always send at once.
+            try:
+                sock.setsockopt(socket.IPPROTO_TCP, socket.TCP_NODELAY, 1)
+            except OSError:
+                pass
         self.rx = bytearray()
         self.tx = 0
         self.eof = False
